@@ -2517,6 +2517,13 @@ func genGlobalVarDecl(nodes []*node, sc *scope) (*node, error) {
 		deps[n] = getVarDependencies(n, sc)
 	}
 
+	// Only the variables declared here have to be ordered: a dependency on a variable
+	// declared by a previous evaluation is already initialized.
+	current := map[*node]bool{}
+	for _, n := range nodes {
+		current[n] = true
+	}
+
 	// Repeatedly select the earliest variable in declaration order which is ready for
 	// initialization, i.e. which has no dependency on an uninitialized variable.
 	inited := map[*node]bool{}
@@ -2526,7 +2533,7 @@ func genGlobalVarDecl(nodes []*node, sc *scope) (*node, error) {
 		for i, n := range pending {
 			canInit := true
 			for _, d := range deps[n] {
-				if !inited[d] {
+				if current[d] && !inited[d] {
 					canInit = false
 				}
 			}
